@@ -12,7 +12,7 @@ CONSTANTS MaxDev
 S(i) == JStr("salt" \o ToString(i))
 Shapes == {"good", "len0", "len1", "len2", "len3", "len4", "len5", "str", "obj", "num", "name-num", "name-null", "name-_sd", "name-dots", "name-vis", "name-dup"}
 Flags == {"dup-within", "dup-across", "dup-nested", "dup-arrays", "dup-junk", "nonstring-entry", "ph-extra", "ph-nonstring", "sd-notarray", "sd-empty"}
-Algs == {"absent", "sha-512", "number", "null"}
+Algs == {"absent", "sha-512", "sha-1", "upper", "number", "null"}
 Devs == {[k |-> "shape", slot |-> s, shape |-> sh] : s \in 1..5, sh \in Shapes \ {"good"}}
         \cup {[k |-> "flag", f |-> f] : f \in Flags} \cup {[k |-> "alg", v |-> a] : a \in Algs} \cup {[k |-> "drop", slot |-> s] : s \in 1..5} \cup {[k |-> "dropall"]}
 \* a slot appears at most once in a deviation set
@@ -66,7 +66,8 @@ Build(D) ==
                  [] k = "arr" -> JArr(<<phl, JStr("e1")>>)
                  \* (dup-arrays: the inner placeholder repeats the digest of arr's placeholder - the same digest in two arrays)
                  [] k = "grid" -> JArr(<<JArr(<<JObj([x \in {"..."} |-> JStr(IF Flag(D, "dup-arrays") THEN d3.dg ELSE d5.dg)]), JStr("x")>>), JStr("y")>>)
-                 [] k = "_sd_alg" -> (CASE alg = "sha-256" -> JStr("sha-256") [] alg = "sha-512" -> JStr("sha-512") [] alg = "number" -> JNum("256") [] alg = "null" -> JNull)])
+                 [] k = "_sd_alg" -> (CASE alg = "sha-256" -> JStr("sha-256") [] alg = "sha-512" -> JStr("sha-512") [] alg = "sha-1" -> JStr("sha-1") [] alg = "upper" -> JStr("SHA-256")
+                                           [] alg = "number" -> JNum("256") [] alg = "null" -> JNull)])
       all == <<d1, d2, d3, d4, d5>>
       pres == SelectSeq(<<1, 2, 3, 4, 5>>, LAMBDA i : ~Dropped(D, i))
   IN [raw |-> TRUE, devs |-> D, pl |-> pl, discs |-> [i \in DOMAIN pres |-> Wire(all[pres[i]])], pool |-> [i \in 1..5 |-> [dg |-> all[i].dg, dec |-> all[i].dec]], key |-> "K1", alg |-> "ES256", exp |-> FarExp, nbf |-> NoNbf]
@@ -87,7 +88,7 @@ Good1(D) == Reach1(D) /\ ShapeOf(D, 1) \in {"good", "len3", "name-dup"}
 Reach4(D) == Good1(D) /\ ~Dropped(D, 4)
 NameIn(D, s) == LET sh == ShapeOf(D, s) IN IF sh \in {"good", "len3"} THEN Name(s) ELSE IF sh = "name-dup" THEN (IF s = 2 THEN "n1" ELSE IF s = 1 THEN "n2" ELSE Name(s)) ELSE ""
 MustReject(D) ==
-  \/ \E d \in D : d.k = "alg" /\ d.v \in {"sha-512", "number", "null"}
+  \/ \E d \in D : d.k = "alg" /\ d.v \in {"sha-512", "sha-1", "upper", "number", "null"}
   \/ Reach1(D) /\ ShapeOf(D, 1) \in BadShapeMember
   \/ Reach2(D) /\ ShapeOf(D, 2) \in BadShapeMember
   \/ Reach1(D) /\ Reach2(D) /\ NameIn(D, 1) # "" /\ NameIn(D, 1) = NameIn(D, 2)                    \* two disclosed members with one name
